@@ -136,7 +136,7 @@ func H_Tile() {
 }
 
 func seedText() (int, string) {
-	list := append(append([]seeds.Seed{}, seeds.CorpusConfig...), seeds.ExtraConfig...)
+	list := append(append(append([]seeds.Seed{}, seeds.CorpusConfig...), seeds.ExtraConfig...), seeds.RangeConfig...)
 	si := vf.Concretize(vf.Choice(len(list)))
 	text := list[si].Text
 	if len(text) > vf.Param("maxlen", 100) {
